@@ -80,6 +80,14 @@ def case_strategy(tier, modes, damage_min, damage_max, max_files=None):
                 {"path": [".pad", "16384"], "size": 16384, "mode": mode, "seed": draw(st.integers(0, 999))},
                 {"path": ["a.bin"], "size": draw(st.sampled_from([1, 16384, 40000])), "mode": mode, "seed": draw(st.integers(0, 999))}]}
             src = {"kind": "own", "creator": "TorrentFile", "align": True}
+        if damage_max and "nz" in modes and draw(st.sampled_from([True] + [False] * 14)):
+            # a two-piece v1 torrent whose whole piece string is valid UTF-8 with multi-byte characters (a lenient decoder hands it
+            # back as text: fewer characters than bytes); the damage below then sits in the trailing piece
+            P = 16384
+            t = {"name": t["name"], "single": False, "files": [
+                {"path": ["p1"], "size": 16384, "mode": "nz", "seed": draw(st.sampled_from([68539, 330530]))},
+                dict(zip(("size", "seed"), draw(st.sampled_from([(7, 188267), (100, 13065), (5000, 64089)]))), path=["p2"], mode="nz")]}
+            src = {"kind": "own", "creator": "TorrentFile"}
         dmg = draw(damage_list(t, damage_min, damage_max)) if damage_max else []
         return {"tree": t, "P": P, "meta": src, "content_path": draw(st.sampled_from(["root", "parent", "root", "parent", "root-symlink", "root-dot", "root-slash-dot", "root-rel"])), "damage": dmg,
                 # "prime": the same process first rechecks the intact payload; the damage is then applied in place with the
